@@ -218,6 +218,7 @@ type Options struct {
 	debug          [COUNT_DEBUG]uint16
 	local_server   int
 	filterRules    []string
+	noExit         bool // see DisallowExit
 
 	// order matches long_options order
 	verbose                int
@@ -1300,6 +1301,27 @@ func (o *Options) tridgeTable() []poptOption {
 
 var errNotYetImplemented = errors.New("option not yet implemented in gokrazy/rsync")
 
+// DisallowExit makes ParseArguments return an error for options that would
+// otherwise print something and terminate the process (--help, --version,
+// --info=help, …). Use it when the arguments come from a network peer.
+func (o *Options) DisallowExit() { o.noExit = true }
+
+func errExitOption(opt string) error {
+	return fmt.Errorf("option %s is not permitted here", opt)
+}
+
+// wantsOutputHelp reports whether an --info/--debug argument asks for help
+// (which parseOutputWords answers by exiting).
+func wantsOutputHelp(arg string) bool {
+	for s := range strings.SplitSeq(arg, ",") {
+		s = strings.TrimRightFunc(strings.TrimSpace(s), unicode.IsNumber)
+		if strings.ToLower(s) == "help" {
+			return true
+		}
+	}
+	return false
+}
+
 func NewContext(opts *Options) *Context {
 	table := opts.table()
 	table = slices.Concat(opts.GokrazyClient.table(), table)
@@ -1365,6 +1387,9 @@ func (pc *Context) ParseArguments(osenv *rsyncos.Env, args []string) error {
 				// are returned and handled here.
 				switch opt {
 				case 'h':
+					if opts.noExit {
+						return errExitOption("-h")
+					}
 					fmt.Println(opts.DaemonHelp()) // tridge rsync prints help to stdout
 					os.Exit(0)                     // exit with code 0 for compatibility with tridge rsync
 				case 'M':
@@ -1491,9 +1516,15 @@ func (pc *Context) ParseArguments(osenv *rsyncos.Env, args []string) error {
 			return errNotYetImplemented
 
 		case OPT_INFO:
+			if opts.noExit && wantsOutputHelp(pc.poptGetOptArg()) {
+				return errExitOption("--info=help")
+			}
 			parseOutputWords(osenv, infoWords[:], opts.info[:], pc.poptGetOptArg(), USER_PRIORITY)
 
 		case OPT_DEBUG:
+			if opts.noExit && wantsOutputHelp(pc.poptGetOptArg()) {
+				return errExitOption("--debug=help")
+			}
 			parseOutputWords(osenv, debugWords[:], opts.debug[:], pc.poptGetOptArg(), USER_PRIORITY)
 
 		case OPT_USERMAP,
@@ -1502,6 +1533,9 @@ func (pc *Context) ParseArguments(osenv *rsyncos.Env, args []string) error {
 			return errNotYetImplemented
 
 		case OPT_HELP:
+			if opts.noExit {
+				return errExitOption("--help")
+			}
 			fmt.Println(opts.Help()) // tridge rsync prints help to stdout
 			os.Exit(0)               // exit with code 0 for compatibility with tridge rsync
 
@@ -1525,16 +1559,25 @@ func (pc *Context) ParseArguments(osenv *rsyncos.Env, args []string) error {
 	// other options
 
 	if version_opt_cnt > 0 {
+		if opts.noExit {
+			return errExitOption("--version")
+		}
 		fmt.Println(version.Read())
 		os.Exit(0)
 	}
 
 	if opts.human_readable > 1 && len(args) == 1 /* && !am_server */ {
+		if opts.noExit {
+			return errExitOption("-hh")
+		}
 		fmt.Println(opts.Help()) // tridge rsync prints help to stdout
 		os.Exit(0)               // exit with code 0 for compatibility with tridge rsync
 	}
 
 	if err := opts.setOutputVerbosity(DEFAULT_PRIORITY); err != nil {
+		if opts.noExit {
+			return err
+		}
 		// TODO: plumb error
 		fmt.Println(err.Error())
 		os.Exit(1)
